@@ -89,6 +89,9 @@ func specFromCase(cs CaseSpec) ScheduleSpec {
 		KeepSilent:      cs.I("keepsilent", 0) == 1,
 	}
 	sp.CloseLeaves = cs.I("closeleaves", 0) == 1
+	sp.CloseGap = int(cs.I("closegap", 0))
+	sp.CloseOnCommit = cs.I("closeoncommit", 0) == 1
+	sp.LagAtSecondChange = cs.I("lagatsecond", 0) == 1
 	sp.FFResets = int(cs.I("ffresets", 0))
 	sp.FFSingleServer = cs.I("ffsingle", 0) == 1
 	if cs.I("dupcontent", 0) == 1 {
@@ -234,6 +237,21 @@ func init() {
 					// transient failures writing frames while decided rounds are turned into blocks
 					cs[i].P["frameerr"] = int64(60 + 40*(i%5))
 				}
+				if i%6 == 2 && cs[i].P["n"] >= 4 {
+					// two validators leave one right after the other: the second change is
+					// committed while the first is still pending, and nodes that lag see it
+					// at different moments
+					cs[i].P["leaves"] = 2
+					cs[i].P["closeleaves"] = 1
+					cs[i].P["closegap"] = int64(20 + 15*(i%5)) // up to about six rounds apart
+					cs[i].P["closeoncommit"] = int64((i / 6) % 2)
+					cs[i].P["joins"] = 0
+					cs[i].P["refused"] = 0
+					if cs[i].P["n"] < 5 {
+						cs[i].P["n"] = 5
+					}
+					delete(cs[i].P, "rejoin")
+				}
 			}
 			// plus: one DAG delivered to two real Hashgraph instances in different arrival
 			// orders (shape corpus and searched long-election DAGs), which reaches the
@@ -248,6 +266,17 @@ func init() {
 					c.S["shape"] = "long-election"
 				}
 				cs = append(cs, c)
+			}
+			// dedicated histories: a second validator-set change committed around the
+			// round at which the first takes effect, seen by nodes with different views
+			closeN := 24
+			if tier == "thorough" {
+				closeN = 300
+			}
+			for j := 0; j < closeN; j++ {
+				cs = append(cs, CaseSpec{Kind: "history",
+					P: map[string]int64{"n": int64(5 + j%3), "steps": int64(260 + 20*(j%6)), "leaves": 2, "closeleaves": 1, "closeoncommit": 1, "lagatsecond": int64(j % 2), "badger": 0},
+					S: map[string]string{"shape": []string{"lag", "partition", "uniform", "split"}[j%4]}})
 			}
 			soaks := 2
 			if tier == "thorough" {
